@@ -174,6 +174,11 @@ class Connection(object):
     def _cleanup(self, _anyway=True):  # IO
         if self._closed and not _anyway:
             return
+        if self._local_root is None:
+            # cleaned up already: the peer's close request was served while close() was still busy,
+            # e.g. inside a before_closed hook that talks to the peer
+            self._closed = True
+            return
         self._closed = True
         self._channel.close()
         self._local_root.on_disconnect(self)
